@@ -53,6 +53,19 @@ CHECKS = {
             'they are labelled with and one real periodic-loop pass is checked on the wire.',
             'Single subscriber; content comparison goes through the library reader (versions, handles, grouping through lxml only); '
             'ordering under concurrent writers is covered by the schedule-exploration part when present in the evidence.', '3/C04'),
+    'C07': ('S', 'stateless preemption-bounded schedule exploration (CHESS-style iterative context bounding) of real request and writer threads under a cooperative baton scheduler; scheduling points at every lock acquire/release',
+            '18 scenarios of 1-2 Get request threads (GetMdib, GetMdDescription all/one handle, GetMdState all/some handles, '
+            'GetContextStates all/one descriptor - real request bytes through the real provider dispatch chain and handlers) against '
+            '1-2 writer threads (metric, location, patient, descriptor update/create/delete transactions) run as real Python threads of '
+            'which only the baton holder executes. Every lock the library creates (mdib lock, transaction lock, all table locks, '
+            'transaction-id, subscription-table and client-pool locks) is replaced by an instrumented lock whose acquire and release '
+            'are scheduling points; blocking is modelled, deadlock is detected. All schedules within a weighted preemption bound of 2 '
+            '(thorough 3; a preemption at an mdib-level lock costs 1, at a table/pool lock 2) are executed, each on a fresh provider. '
+            'The harness snapshots the MDIB inside every commit; each response is re-parsed and its stated MdibVersion, entity set and '
+            'every descriptor/state are compared with the snapshot of exactly that version.',
+            'Lock-granularity only (the granularity the property states); races between statements not separated by a lock operation '
+            'are not explored; sync subscription manager without subscriber; one schedule is replayed twice per run as determinism '
+            'self-check.', '3/C07'),
     'C08': ('H', 'explicit-state breadth-first search with canonical-state dedup over eventing histories on the four real subscription managers inside the real provider dispatch chain, against a reference model of subscription liveness on the same virtual clock',
             'BFS to depth 4 (thorough 6) over 34 events - Subscribe (expires omitted / 5 / 99 > maximum), Renew, GetStatus, Unsubscribe, '
             'the same three naming an unknown identifier, metric and alert reports, clock ticks of 2 s and 4 s across expiry, one pass of '
